@@ -139,5 +139,6 @@ func init() {
 		}
 		return out
 	})
+	regV("RedialsWithoutBackoff", func(g *G, a []Value) Value { return I64(int64(g.run.env.unbackedDials)) })
 	regV("TimersFired", func(g *G, a []Value) Value { return I64(int64(g.run.timersFired)) })
 }
